@@ -1057,7 +1057,31 @@ func (t *FnTrans) instr(in ssa.Instruction) {
 	case *ssa.Select:
 		t.selectInstr(x)
 	case *ssa.SliceToArrayPointer:
-		t.fail("SliceToArrayPointer unsupported")
+		// (*[N]T)(s): panics when len(s) < N; the array it points to is the slice's backing store, which is
+		// abstracted here: the result is an unconstrained non-nil pointer (what is read through it is arbitrary)
+		sv := t.term(x.X)
+		if at, ok := t.resolve(x.Type()).Underlying().(*types.Pointer); ok {
+			if arr, ok := t.resolve(at.Elem()).Underlying().(*types.Array); ok {
+				t.oblige("slice2array", app(">=", app("s.len", sv), fmt.Sprint(arr.Len())), "conversion of a slice to an array of greater length panics")
+			}
+		}
+		r := t.allocRef()
+		t.bind(x, r)
+		// the array it points to: an (uninterpreted) function of the slice's byte content, so that equal bytes give
+		// equal arrays; only byte arrays are related, other element types stay unconstrained
+		if at, ok := t.resolve(x.Type()).Underlying().(*types.Pointer); ok {
+			if arr, ok := t.resolve(at.Elem()).Underlying().(*types.Array); ok {
+				if b, ok := t.resolve(arr.Elem()).Underlying().(*types.Basic); ok && b.Kind() == types.Uint8 {
+					ec := t.comp("E.Int", "(Array Int (Array Int Int))")
+					t.declareFun("arr$ofstr", []string{"Str"}, "(Array Int Int)")
+					prefix := app("mk-slice", app("s.base", sv), app("s.off", sv), fmt.Sprint(arr.Len()), fmt.Sprint(arr.Len()))
+					t.cur.H[ec] = app("store", t.get(ec), t.vals[x].S, app("arr$ofstr", t.bytesToStr(prefix)))
+					t.abstr["slice-to-array conversion: the array is an uninterpreted function of the bytes"] = true
+					break
+				}
+			}
+		}
+		t.abstr["slice-to-array conversion: the array value is unconstrained"] = true
 	case *ssa.MultiConvert:
 		t.fail("MultiConvert unsupported")
 	default:
@@ -1238,7 +1262,7 @@ func (t *FnTrans) alloc(x *ssa.Alloc) {
 		sort.Strings(gns)
 		for _, gn := range gns {
 			gs := t.ghostSort(ts.GhostField[gn], T)
-			gc := t.comp("H."+originName(T)+".$"+gn, "(Array Int "+gs+")")
+			gc := t.comp(ghostCompName(originName(T), gn, ts.GhostField[gn], gs), "(Array Int "+gs+")")
 			t.cur.H[gc] = app("store", t.get(gc), n, "0")
 		}
 	}
@@ -1275,7 +1299,7 @@ func (t *FnTrans) initLocks(T types.Type, prefix string, ref string) {
 				addr := t.termOfOpt(Val{P: &Ptr{Kind: "field", Comp: c, Ref: ref, T: ft}})
 				for gn := range ts.GhostZero {
 					gs := t.ghostSort(ts.GhostField[gn], ft)
-					gc := t.comp("H."+originName(ft)+".$"+gn, "(Array Int "+gs+")")
+					gc := t.comp(ghostCompName(originName(ft), gn, ts.GhostField[gn], gs), "(Array Int "+gs+")")
 					t.cur.H[gc] = app("store", t.get(gc), addr, "0")
 				}
 			}
